@@ -24,8 +24,9 @@ EXTENDS AcceptDispatch, IOUtils, TLCExt
 
 Rec == ndJsonDeserialize(IOEnv.TRACE)
 N == Len(Rec)
-VARIABLES pos, inIter
-tvars == <<vars, pos, inIter>>
+VARIABLES pos, inIter,
+          prefin      \* connections the schedule finished before they were served: they complete as soon as they are called
+tvars == <<vars, pos, inIter, prefin>>
 
 SetOf(s) == {s[k] : k \in 1..Len(s)}
 
@@ -49,6 +50,30 @@ Match(st) ==
   /\ running' => timeoutSet' = st.timeoutSet
   /\ \A l \in Listeners : pathOk'[l] = st.pathOk[l]
   /\ \A l \in Listeners : (errq'[l] = <<>>) = (st.errq[l] = 0)
+
+\* names of the logged variables that differ (diagnostics: printed for the candidate steps at the first unmatched event)
+Diff(st) ==
+  {f \in {"backlog", "alive", "chan", "counter", "inprog", "oldInprog", "avail", "handles", "next", "paused", "running",
+          "panicked", "wq", "cmdq", "lstTimer", "timeoutSet", "pathOk", "errq"} :
+     CASE f = "backlog" -> \E l \in Listeners : backlog'[l] # st.backlog[l]
+       [] f = "alive" -> \E i \in Workers : alive'[i] # st.alive[i + 1]
+       [] f = "chan" -> \E i \in Workers : alive'[i] /\ chan'[i] # st.chan[i + 1]
+       [] f = "counter" -> \E i \in Workers : alive'[i] /\ counter'[i] # st.counter[i + 1]
+       [] f = "inprog" -> \E i \in Workers : alive'[i] /\ inprog'[i] # SetOf(st.inprog[i + 1])
+       [] f = "oldInprog" -> \E i \in Workers : oldInprog'[i] # SetOf(st.oldInprog[i + 1])
+       [] f = "avail" -> \E i \in Workers : avail'[i] # st.avail[i + 1]
+       [] f = "handles" -> handles' # st.handles
+       [] f = "next" -> Len(handles') > 0 /\ next' # st.next
+       [] f = "paused" -> paused' # st.paused
+       [] f = "running" -> (~st.panicked /\ ~st.spin) /\ running' # st.running
+       [] f = "panicked" -> (st.panicked \/ st.spin) # (apc' = "panicked")
+       [] f = "wq" -> wq' # st.wq
+       [] f = "cmdq" -> cmdq' # st.cmdq
+       [] f = "lstTimer" -> \E l \in Listeners : lstTimer'[l] # st.lstTimer[l]
+       [] f = "timeoutSet" -> running' /\ timeoutSet' # st.timeoutSet
+       [] f = "pathOk" -> \E l \in Listeners : pathOk'[l] # st.pathOk[l]
+       [] f = "errq" -> \E l \in Listeners : (errq'[l] = <<>>) # (st.errq[l] = 0)}
+Debug == IOEnv.STRICT_DEBUG = "1"
 
 \* ---- reset: a new run starts from the initial state ----
 ResetVars ==
@@ -122,20 +147,44 @@ BareWakeT ==
   /\ UNCHANGED <<backlog, registered, edge, pathOk, errq, lstTimer, timeoutSet, wq, chan, chanOpen, counter,
                  inprog, alive, oldInprog, oldCounter, cmdq, nconn, nfaults, ncmds, nerrs, served, closed,
                  dispatchLog, rrWindow, everFaulted, pauseEffective, connRefused, fatalSeen>>
-\* polling a worker that has nothing queued (or is gone) changes nothing this specification talks about
-WorkerPollT(i) == IF alive[i] /\ chan[i] # <<>> THEN WorkerPoll(i) ELSE UNCHANGED vars
+\* polling a worker that has nothing queued (or is gone) changes nothing this specification talks about; connections
+\* that the schedule finished before they were served (prefin) are called and complete at once: WorkerPoll followed by
+\* their Finish steps, folded into one step (the counter goes down by their number, crossing WakeAt at most once)
+WorkerPollT(i) ==
+  IF ~(alive[i] /\ chan[i] # <<>>) THEN UNCHANGED vars
+  ELSE LET conns == Range(chan[i])  F == conns \cap prefin  n == Cardinality(F) IN
+       IF n = 0 THEN WorkerPoll(i)
+       ELSE /\ inprog' = [inprog EXCEPT ![i] = @ \cup (conns \ F)]
+            /\ served' = [c \in DOMAIN served \cup conns |-> IF c \in conns THEN i ELSE served[c]]
+            /\ chan' = [chan EXCEPT ![i] = <<>>]
+            /\ counter' = [counter EXCEPT ![i] = @ - n]
+            /\ IF WakeAt \in (counter[i] - n + 1)..counter[i]
+                 THEN wq' = Append(wq, <<"WA", i>>) /\ wakerPending' = TRUE
+                 ELSE UNCHANGED <<wq, wakerPending>>
+            /\ closed' = closed \cup F
+            /\ act' = [A("WorkerPoll") EXCEPT !.i = i]
+            /\ UNCH_ACCEPT
+            /\ UNCHANGED <<backlog, registered, edge, pathOk, errq, lstTimer, timeoutSet, chanOpen, alive, oldInprog,
+                           oldCounter, cmdq, nconn, nfaults, ncmds, nerrs, nbare, dispatchLog, rrWindow, everFaulted,
+                           pauseEffective, connRefused, fatalSeen>>
+\* a Finish for a connection that is not in progress: remembered (it has not been served yet) - or a repetition
+FinishT(c) ==
+  IF \E i \in Workers : c \in inprog[i] \/ c \in oldInprog[i]
+    THEN (\E i \in Workers : Finish(i, c) \/ TearDown(i, c)) /\ UNCHANGED prefin
+    ELSE UNCHANGED vars /\ prefin' = prefin \cup {c}
 
 EnvAct(e) ==
   CASE e.do = "Connect"       -> Connect(e.l)
     [] e.do = "WorkerPoll"    -> WorkerPollT(e.i)
-    [] e.do = "Finish"        -> \E i \in Workers : Finish(i, e.c) \/ TearDown(i, e.c)
-    [] e.do = "Kill"          -> Kill(e.i)
+    [] e.do = "Finish"        -> FinishT(e.c)
+    [] e.do = "Kill"          -> (IF alive[e.i] THEN Kill(e.i) ELSE UNCHANGED vars)   \* killing a dead worker: nothing
     [] e.do = "Replace"       -> ReplaceT(e.i)
     [] e.do = "Cmd"           -> CmdT(e.x)
     [] e.do = "WakeAvailable" -> WakeAvailT(e.i)
     [] e.do = "Inject"        -> InjectErr(e.l, e.kind)
     [] e.do = "Advance"       -> AdvanceT
     [] e.do = "BareWake"      -> BareWakeT
+    [] e.do = "Noop"          -> UNCHANGED vars      \* the engine found the action not applicable
     [] OTHER                  -> FALSE
 
 \* ---- the yield point an accept-thread action passes (from its label act') ----
@@ -156,18 +205,19 @@ Note(p) == IF p > TLCGet(1) THEN TLCSet(1, p) ELSE TRUE
 
 StepReset ==
   /\ pos < N /\ Ev.ev = "reset"
-  /\ ResetVars /\ inIter' = FALSE /\ pos' = pos + 1
+  /\ ResetVars /\ inIter' = FALSE /\ pos' = pos + 1 /\ prefin' = {}
 StepEnv ==
   /\ pos < N /\ Ev.ev = "env"
   /\ Ev.in_iter = inIter
   /\ EnvAct(Ev)
-  /\ (Ev.has_st => Match(Ev.st))
+  /\ (Ev.do # "Finish" => UNCHANGED prefin)
+  /\ (Ev.has_st => IF Match(Ev.st) THEN TRUE ELSE (Debug /\ PrintT(<<"ENV_MISMATCH", pos + 1, Ev.do, Diff(Ev.st)>>) /\ FALSE))
   /\ pos' = pos + 1 /\ UNCHANGED inIter
 \* the accept thread: only inside an iteration window of the trace
 InWindow == pos < N /\ Ev.ev \in {"pt", "iterend"}
 StepPoll ==
   /\ InWindow /\ ~inIter
-  /\ APoll /\ inIter' = TRUE /\ pos' = pos
+  /\ APoll /\ inIter' = TRUE /\ pos' = pos /\ UNCHANGED prefin
 StepAccept ==
   /\ InWindow /\ inIter
   /\ (ABatch \/ APop \/ AAcceptSys \/ AChoose \/ ASend \/ AInc \/ ATimeout)
@@ -175,14 +225,15 @@ StepAccept ==
        THEN pos' = pos
        ELSE /\ Ev.ev = "pt" /\ Ev.kind = PointKind(act') /\ PointArgOk(act', Ev)
             /\ pos' = pos + 1
-  /\ UNCHANGED inIter
+  /\ UNCHANGED <<inIter, prefin>>
 StepIterEnd ==
   /\ pos < N /\ Ev.ev = "iterend" /\ inIter
   /\ apc \in {"idle", "exited", "panicked"}
-  /\ UNCHANGED vars /\ Match(Ev.st)
-  /\ inIter' = FALSE /\ pos' = pos + 1
+  /\ UNCHANGED vars
+  /\ (Ev.has_st => IF Match(Ev.st) THEN TRUE ELSE (Debug /\ PrintT(<<"ITEREND_MISMATCH", pos + 1, apc, Diff(Ev.st)>>) /\ FALSE))
+  /\ inIter' = FALSE /\ pos' = pos + 1 /\ UNCHANGED prefin
 
-TInit == Init /\ pos = 0 /\ inIter = FALSE /\ TLCSet(1, 0)
+TInit == Init /\ pos = 0 /\ inIter = FALSE /\ prefin = {} /\ TLCSet(1, 0)
 TNext == (StepReset \/ StepEnv \/ StepPoll \/ StepAccept \/ StepIterEnd) /\ Note(pos')
 TSpec == TInit /\ [][TNext]_tvars
 
